@@ -50,7 +50,7 @@ def chinook_phase(run):
 
 
 def run(tier, seed):
-    r = explore("C01", PROPS, [("core", 0.75), ("boundary_nowin", 1.5)], tier, seed, 900, 24000, ASSUMPTIONS)
+    r = explore("C01", PROPS, [("core", 0.75), ("boundary_nowin", 1.5), ("shared", 0.5)], tier, seed, 900, 24000, ASSUMPTIONS)
     chinook_phase(r)
     r.assumptions = list(r.assumptions) + [
         "chinook phase: the %s upstream integration queries that run on SQLite must reproduce the result snapshots recorded upstream (text equal, floats up to 1e-9 relative); this also calibrates the harness's execution path against data that is not mine" % r.coverage.get("chinook_snapshot_queries", "?")]
